@@ -10,3 +10,14 @@ import "os"
 func verifSnapOpen(path string) (*os.File, error) {
 	return os.OpenFile(path, os.O_RDWR|os.O_APPEND|os.O_CREATE, 0644)
 }
+
+// verifSnapRecover is the start-up recovery of NewSnapshotter: a compacted snapshot left
+// behind by a crash between remove and rename is moved into place.
+func verifSnapRecover(path string) error {
+	if _, err := os.Stat(path); os.IsNotExist(err) {
+		if _, err := os.Stat(path + tmpExt); err == nil {
+			return os.Rename(path+tmpExt, path)
+		}
+	}
+	return nil
+}
